@@ -36,6 +36,7 @@ PROPERTY_RULES: Dict[str, List[str]] = {
     "C12": ["ORD-1", "ORD-2", "ORD-3", "ORD-5"],
     "C14": ["STORE-3", "STORE-4", "STORE-5", "STORE-9", "CTRL-4", "CTRL-8", "NAME-3", "TOTAL-1", "TOTAL-2", "TOTAL-5", "STORE-11"],
     "C15": ["DISP-8", "DISP-9", "ORD-3", "ORD-4", "TOTAL-6"],
+    "C16": ["ITER-1", "TOTAL-6", "STORE-6"],
     "C17": ["DISP-7", "ORD-5", "TOTAL-6"],
     "C18": ["NAME-1", "NAME-2", "NAME-3", "NAME-4", "ORD-5"],
 }
@@ -49,6 +50,7 @@ PROPERTY_SCOPE = {
     ("C18", "ORD-5"): ("scfg", "transformations", "ast_transforms", "flow_info"),
     ("C17", "TOTAL-6"): ("fn:SCFG.__iter__", "fn:ConcealedRegionView", "rendering"),
     ("C15", "TOTAL-6"): ("fn:SCFGIO.",),
+    ("C16", "TOTAL-6"): ("fn:SCFG.__iter__", "fn:ConcealedRegionView"),
     ("C02", "TOTAL-6"): ("scfg", "transformations", "scc"),
     ("C03", "TOTAL-6"): ("scfg", "transformations", "scc"),
     ("C07", "TOTAL-6"): ("scfg", "transformations", "ast_transforms"),
